@@ -81,6 +81,10 @@ func (m *MessageClientKeyExchange) Unmarshal(data []byte) error {
 		if publicKeyLength > len(data)-1-offset {
 			return dtlserrors.ErrBufferTooSmall
 		}
+		// Marshal cannot frame an ECDHE exchange without a public key.
+		if publicKeyLength == 0 {
+			return dtlserrors.ErrInvalidClientKeyExchange
+		}
 
 		m.PublicKey = bytes.Clone(data[offset+1 : offset+1+publicKeyLength])
 	}
